@@ -186,8 +186,9 @@ def ahtReset (s : St D) (m : Nat) : Option (St D) :=
     some { s1 with aht := ⟨s1.aht.payloads.take m, s1.aht.groups.take m⟩ }
 
 /-- `if blTxID > 0 { blRoot, err = aht.RootAt(blTxID); if err != nil && !ErrEmptyTree {return err} }`;
-`z` is what the variable held before: the zero value `[32]byte{}` in `precommit`'s check, the pooled
-holder's previous `BlRoot` in `performPrecommit`. -/
+`z` is the zero value `[32]byte{}`: what the local variable holds in `precommit`'s check, and what
+`performPrecommit` assigns to the pooled holder's `BlRoot` field in its `else` branch (`blTxID = 0`)
+— before the repair the field kept the `BlRoot` of the holder's previous tx there. -/
 def blRootFor (z : D) (s : St D) (blTxID : Nat) : Except Err D :=
   if blTxID = 0 then .ok z
   else match AHT.rootAt s.aht blTxID with
@@ -273,10 +274,6 @@ structure OwnReq (D : Type) where
   entries : List (Entry D)
   hasPre : Bool
   preOk : Bool
-  /-- what the pooled tx holder's `BlRoot` field happens to contain: `performPrecommit` assigns
-  the field only when `blTxID > 0` (and the tree is not empty), otherwise this value is stored.
-  `[32]byte{}` for a fresh holder. -/
-  stale : D
 
 def precommitOwn (hs : Hs D) (z : D) (s : St D) (q : OwnReq D) : St D × Out D :=
   if q.entries.isEmpty = true ∧ q.md = [] then (s, .err .noEntries)
@@ -287,15 +284,13 @@ def precommitOwn (hs : Hs D) (z : D) (s : St D) (q : OwnReq D) : St D × Out D :
       if s.closed then (s, .err .alreadyClosed)
       else if q.hasPre = true ∧ s.committed < s.preID then (s, .err .blocked)   -- WaitForIndexingUpto(precommitted) under s.mutex
       else if q.hasPre = true ∧ q.preOk = false then (s, .err .precondition)
-      else performPrecommit hs q.stale s ⟨s.cfg.version, q.md, q.entries, eh⟩ q.ts s.aht.size
+      else performPrecommit hs z s ⟨s.cfg.version, q.md, q.entries, eh⟩ q.ts s.aht.size
 
 /-- A replicated commit: `precommit(otx, hdr)` as called by `ReplicateTx`. -/
 structure RepReq (D : Type) where
   hdr : TxHeader D
   entries : List (Entry D)
   skip : Bool
-  /-- see `OwnReq.stale` -/
-  stale : D
 
 variable [DecidableEq D]
 
@@ -324,7 +319,7 @@ def precommitRep (hs : Hs D) (z : D) (s : St D) (q : RepReq D) : St D × Out D :
           else if q.hdr.id - 1 < s.preID then (s, .err .alreadyCommitted)
           else if s.preID < q.hdr.id - 1 then (s, .err .wrongOrder)
           else if s.preAlh ≠ q.hdr.prevAlh then (s, .err .prevAlhMismatch)
-          else performPrecommit hs q.stale s ⟨q.hdr.version, q.hdr.md, q.entries, eh⟩ q.hdr.ts q.hdr.blTxID
+          else performPrecommit hs z s ⟨q.hdr.version, q.hdr.md, q.entries, eh⟩ q.hdr.ts q.hdr.blTxID
 
 /-! ### the other critical sections -/
 
